@@ -97,7 +97,9 @@ Bracket OneDimensionOptimizationTools::bracketMinimum(
       parameters[0].setValue(xu); fu = function.f(parameters);
       if (fu < bracket.c.f)
       {
-        NumTools::shift<double>(bracket.b.x, bracket.c.x, xu, bracket.c.x + NumConstants::GOLDEN_RATIO_PHI() * (bracket.c.x - bracket.b.x));
+        // The next trial point extends beyond the new third point (xu), by the golden ratio of the last interval:
+        double xnext = xu + NumConstants::GOLDEN_RATIO_PHI() * (xu - bracket.c.x);
+        NumTools::shift<double>(bracket.b.x, bracket.c.x, xu, xnext);
         parameters[0].setValue(xu);
         NumTools::shift<double>(bracket.b.f, bracket.c.f, fu, function.f(parameters));
       }
